@@ -291,6 +291,26 @@ def finish(ctx, extra_assumptions=()):
     cov.setdefault("trusted_base", ctx.trusted_base or ["Coq 8.16.1 kernel (vm_compute used, native_compute not)"])
     cov.setdefault("samples", ctx.samples[:12] if ctx.samples else [o["name"] for o in ctx.obligations[:12]])
     cov.setdefault("evaluations", cov.get("evaluations", 0))
+    # schema hygiene: the typed coverage keys must have their schema types, whatever a harness put there
+    for k in ("evaluations", "distinct_nontrivial", "states", "transitions", "traces_validated_against_impl", "programs", "disagreements_checked"):
+        if k in cov and not (isinstance(cov[k], int) and not isinstance(cov[k], bool) and cov[k] >= 0):
+            detail = cov.pop(k)
+            cov[k + "_detail"] = detail
+            if isinstance(detail, dict) and all(isinstance(v, int) for v in detail.values()):
+                cov[k] = sum(detail.values())
+            elif isinstance(detail, (list, tuple)):
+                cov[k] = len(detail)
+            elif isinstance(detail, float):
+                cov[k] = int(detail)
+    for k in ("rule", "explanation", "checker_cmd"):
+        if k in cov and not isinstance(cov[k], str):
+            cov[k] = json.dumps(cov[k], default=str)
+    if "exhaustive" in cov and not isinstance(cov["exhaustive"], bool):
+        cov["exhaustive_detail"] = cov.pop("exhaustive")
+    if not isinstance(cov.get("samples"), list):
+        cov["samples"] = [cov.get("samples")]
+    if not (isinstance(cov.get("trusted_base"), list) and all(isinstance(x, str) for x in cov["trusted_base"])):
+        cov["trusted_base"] = [str(x) for x in (cov.get("trusted_base") or [])] if isinstance(cov.get("trusted_base"), (list, tuple)) else [str(cov.get("trusted_base"))]
     cov["obligation_list"] = [{"name": o["name"], "kind": o["kind"], "ok": o["ok"], "detail": o["detail"][:300]}
                               for o in ctx.obligations]
     cov["axioms_per_theorem"] = ctx.axioms
